@@ -12,6 +12,7 @@ Pydantic models for pipeline configuration and serialization support.
 from __future__ import annotations
 
 import base64
+import math
 import pickle
 from collections import OrderedDict
 from hashlib import sha256
@@ -161,11 +162,15 @@ class PipelineLiteral(BaseModel):
     @classmethod
     def represent(cls, data: Any) -> Self:
         try:
-            return cls(encoding="json", value=data)
+            lit = cls(encoding="json", value=data)
+            if _json_exact(data):
+                return lit
         except ValidationError:
-            # data is not basic JSON values, so let's pickle it
-            dbytes = pickle.dumps(data)
-            return cls(encoding="base85", value=base64.b85encode(dbytes).decode("ascii"))
+            pass
+
+        # data is not basic JSON values, so let's pickle it
+        dbytes = pickle.dumps(data)
+        return cls(encoding="base85", value=base64.b85encode(dbytes).decode("ascii"))
 
     def decode(self) -> Any:
         "Decode the represented literal."
@@ -175,6 +180,23 @@ class PipelineLiteral(BaseModel):
             case "base85":
                 assert isinstance(self.value, str)
                 return pickle.loads(base64.b85decode(self.value))
+
+
+def _json_exact(data: Any) -> bool:
+    """
+    Test whether a value consists of exactly the basic JSON types, so that it
+    survives a JSON round trip unchanged.  Instances of subclasses (such as
+    NumPy scalars) would come back as the base type, and non-finite floats are
+    written as ``null``.
+    """
+    if type(data) is float:
+        return math.isfinite(data)
+    elif type(data) is list:
+        return all(_json_exact(x) for x in data)
+    elif type(data) is dict:
+        return all(type(k) is str and _json_exact(v) for (k, v) in data.items())
+    else:
+        return data is None or type(data) in (bool, int, str)
 
 
 def hash_config(config: BaseModel) -> str:
